@@ -241,7 +241,8 @@ func (it *Iterator) SequenceNumber() uint64 {
 	return it.currentSeqNum
 }
 
-// decodeCurrent decodes the entry at the current position
+// decodeCurrent decodes the entry at the current position, which must be a
+// restart point (full key), and moves the position past it
 func (it *Iterator) decodeCurrent() ([]byte, []byte, bool) {
 	if it.currentPos >= it.dataEnd {
 		return nil, nil, false
@@ -262,12 +263,14 @@ func (it *Iterator) decodeCurrent() ([]byte, []byte, bool) {
 	key := make([]byte, keyLen)
 	copy(key, data[:keyLen])
 	data = data[keyLen:]
+	pos := it.currentPos + 2 + uint32(keyLen)
 
 	// Read sequence number if format includes it (check if enough data for both seq num and value len)
 	seqNum := uint64(0)
 	if len(data) >= 12 { // 8 for seq num + 4 for value len
 		seqNum = binary.LittleEndian.Uint64(data)
 		data = data[8:]
+		pos += 8
 	}
 
 	// Read value
@@ -282,6 +285,7 @@ func (it *Iterator) decodeCurrent() ([]byte, []byte, bool) {
 	if valueLen == TombstoneValueLengthMarker {
 		// This is a tombstone - value remains nil
 		value = nil
+		pos += 4
 	} else {
 		// Regular value
 		if uint32(len(data)) < valueLen {
@@ -290,8 +294,10 @@ func (it *Iterator) decodeCurrent() ([]byte, []byte, bool) {
 
 		value = make([]byte, valueLen)
 		copy(value, data[:valueLen])
+		pos += 4 + valueLen
 	}
 
+	it.currentPos = pos
 	it.currentKey = key
 	it.currentVal = value
 	it.currentSeqNum = seqNum
